@@ -57,6 +57,14 @@ def _new_frame(rng, fr):
             for r in rows:
                 c["values"][r] = 9
             placed["k"] = rows
+    # the new frame's index is not 0..m-1 in order (sorted / filtered / shuffled frames are the norm)
+    r = rng.random()
+    if r < 0.4:
+        idx = list(range(m))
+        rng.shuffle(idx)
+        new["index"] = idx
+    elif r < 0.6:
+        new["index"] = sorted(rng.sample(range(100), m))
     return new, placed
 
 
